@@ -23,7 +23,9 @@ EXPLANATION = (
     'requirements that cannot all be met have an error path in '
     'finalize/get_ordered; R-C09.6 grouping the ordered nodes into execution '
     'batches preserves their order (no regrouping by task across '
-    'interleaved nodes).')
+    'interleaved nodes); R-C09.7 every mapping attribute of the graph classes '
+    'is filled and probed with the same kind of key (app object vs app label '
+    'vs node key).')
 NOT_DECIDED = (
     'Correctness of the topological sort on all graphs, and the behaviour '
     'of Django\'s own migration planner.')
@@ -417,7 +419,71 @@ def r6_batches_preserve_order(ctx):
                     'order', key='batch-order')
 
 
+def _key_kind(e) -> str:
+    t = unparse(e)
+    last = t.split('.')[-1]
+    if last.endswith('label') or last.endswith('_name') or \
+            isinstance(e, ast.BinOp) or 'make_' in t and 'key' in t:
+        return 'label/str'
+    if last == 'app' or last.endswith('_app') or last == 'app_config':
+        return 'app object'
+    if last == 'task':
+        return 'task object'
+    if last.endswith('key'):
+        return 'node key'
+    return 'other'
+
+
+def r7_mapping_key_kinds(ctx):
+    """A mapping attribute must be filled and probed with the same kind of
+    key (app module vs app label, node key vs node ...)."""
+    ctx.rule('R-C09.7')
+    p = ctx.program
+    n = 0
+    for cname in ('DependencyGraph', 'EvolutionGraph'):
+        cls = p.cls(G, cname)
+        uses = {}
+        for m in cls.methods.values():
+            for x in walk_no_nested(m.node, include_lambda=True):
+                key = attr = None
+                if isinstance(x, ast.Subscript) and is_self_attr(x.value):
+                    attr, key = x.value.attr, x.slice
+                elif isinstance(x, ast.Call) and \
+                        isinstance(x.func, ast.Attribute) and \
+                        x.func.attr in ('setdefault', 'get', 'pop') and \
+                        is_self_attr(x.func.value) and x.args:
+                    attr, key = x.func.value.attr, x.args[0]
+                elif isinstance(x, ast.Compare) and len(x.ops) == 1 and \
+                        isinstance(x.ops[0], (ast.In, ast.NotIn)) and \
+                        is_self_attr(x.comparators[0]):
+                    attr, key = x.comparators[0].attr, x.left
+                if attr and key is not None and attr.startswith('_'):
+                    uses.setdefault(attr, []).append((m, x, key))
+        for attr, sites in sorted(uses.items()):
+            kinds = {}
+            for m, x, key in sites:
+                kinds.setdefault(_key_kind(key), []).append((m, x, key))
+            n += 1
+            named = {k: v for k, v in kinds.items() if k != 'other'}
+            if len(named) <= 1:
+                ctx.ok(('django_evolution.utils.graph', cname),
+                       'self.%s is keyed consistently (%s; %d sites)' % (
+                           attr, ', '.join(sorted(kinds)), len(sites)))
+            else:
+                # report the minority site
+                minority = sorted(named.items(), key=lambda kv: len(kv[1]))[0]
+                m, x, key = minority[1][0]
+                ctx.finding(m, x, 'self.%s is filled with %s keys but probed '
+                            'with a %s key (%s): the lookup can never match' %
+                            (attr, sorted(k for k in named
+                                          if k != minority[0])[0],
+                             minority[0], unparse(key)),
+                            key='key-kind:%s:%s' % (attr, unparse(key)))
+    ctx.floor('mapping attributes of the graph classes', n, 2)
+
+
 def run(ctx):
+    r7_mapping_key_kinds(ctx)
     r1_edge_direction(ctx)
     r2_key_vocabulary(ctx)
     r3_tie_break(ctx)
